@@ -640,6 +640,7 @@ func (c *client) loopWrite() {
 
 		select {
 		case <-c.quit:
+			req.SetResponse(newError(backendExited))
 			return
 		case c.processingReqs <- req:
 		}
